@@ -494,6 +494,10 @@ class World:
         self.retries = []
         if callable(order):
             order = order([(h, c) for h, c, _, _ in got])
+        elif order is not None:
+            # schedules name the retried requests by container (TLC labels) or by
+            # [host, container] (recorded schedules)
+            order = [(self.where.get(x), x) if isinstance(x, str) else tuple(x) for x in order]
         if order is not None and sorted((h, c) for h, c, _, _ in got) == sorted(map(tuple, order)):
             todo = list(got)
             got = []
